@@ -6,7 +6,7 @@ TB = ("Trusted base: Python's ast / clang 14's parser, the checker's own CFG, "
       "/verif/spec reference tables. ")
 
 # properties whose check is finished and registered in MANIFEST.json
-READY = ["C02", "C03", "C05", "C06", "C08", "C09", "C11", "C12", "C13", "C14", "C15", "C18", "C20"]
+READY = ["C01", "C02", "C03", "C05", "C06", "C07", "C08", "C09", "C11", "C12", "C13", "C14", "C15", "C16", "C17", "C18", "C19", "C20"]
 
 CLAIMS = {
     "C02": {
@@ -94,5 +94,15 @@ CLAIMS = {
                 "times by header + stored length with a relative seek from a rewound file; parse_all's loop ends on EOF, skips "
                 "unparsable records, stops at count; append writes exactly dump_msg in list order.",
         "note": TB + "Not decided: field equality of what is returned (C01's round trip); behaviour on files containing unparsable records beyond skip/continue.",
+    },
+    "C01": {
+        "technique": "byte-layout abstract interpretation of encoder and decoder (sibling agreement), bit provenance via expression normal form, validated-range vs wire-width containment, exhaustive constant folding of the soft-bit tables, the MTS octet and the burst-length rules",
+        "text": "Decides codec symmetry, a necessary condition of the round trip, for all field values: per class and header version the encoder's "
+                "segment list and the decoder's field expressions are inverse (same offsets, struct formats, negation of RSSI, version in bits 7..4 and "
+                "TN in bits 2..0 of octet 0 without overlap, burst at HDR_LEN on both sides); every validated value fits its wire width; the four "
+                "256-entry soft-bit tables are mutually inverse on -127..127 and map bits to full-confidence soft bits of the matching sign; "
+                "parse_mts(gen_mts(x)) == x for all 112 valid (modulation, TSC set, TSC) combinations and NOPE, all 256 octets parse; "
+                "burst-length and legacy-padding rules give back the sent length for every encodable length.",
+        "note": TB + "Not decided: equality of every field for every concrete message (the runtime round trip itself); fields not on the wire (mod_type on v0).",
     },
 }
